@@ -79,6 +79,9 @@ TraceNext ==
        [] Ev = "blk.ack.post"     -> Obs(A[2] \in ack[A[1]])
        [] Ev = "push.casfull.pre" -> lt[P] = A[1] /\ PFull(P) /\ Step
        [] Ev = "push.casfull.post"-> Obs(A[1] = 1 /\ nb[P] = A[2] /\ tail = A[2])
+       \* a yield point with no atomic step of its own, right after the new tail became visible: the block must
+       \* already be linked to its predecessor (anything the code still did afterwards would be interleaved here)
+       [] Ev = "push.installed.pre" -> Obs(pc[P] = "p_claim2" /\ lt[P] = nb[P] /\ next[nb[P]] # Null)
        [] Ev = "push.link.pre"    -> ~LinkFirst /\ nb[P] = A[1] /\ lt[P] = A[2] /\ PLink(P) /\ Step
        [] Ev = "push.done.post"   -> Obs(pc[P] = "p_load" /\ A[1] = Val(P, k[P] - 1))
        [] Ev = "clr.load.pre"     -> CLoad /\ Step
